@@ -100,7 +100,18 @@ pub fn lockstep_opts(
         }
         res.steps += 1;
         let is_instr = matches!(cur.exec.first(), Some(ItemSpec::Instr(_)));
-        if is_instr && skip(&label, &cur) {
+        // An instruction whose documented operands are not all present may have consumed any of
+        // the operands it had already taken (C10): which ones is not specified, so such a step
+        // is not value-compared here (C10's frame rules apply to it in C10's own check).
+        let short = is_instr
+            && crate::footprint::get(&label)
+                .map(|fp| {
+                    let mut b = cur.clone();
+                    b.exec.remove(0);
+                    !fp.needs_met(&b)
+                })
+                .unwrap_or(false);
+        if is_instr && (short || skip(&label, &cur)) {
             res.unspecified += 1;
         } else {
             match expect.judge(&snap) {
@@ -169,7 +180,9 @@ pub fn context_skip(n: &str, before: &StateSpec) -> bool {
                     return true;
                 }
                 for j in (i + 1)..subs.len() {
-                    if texts[i] == texts[j] && subs[i] != subs[j] {
+                    // either direction: alike in print but different items (BOOL[] / INT[]), or
+                    // the same item for the reference but different in print (0.0 / -0.0)
+                    if (texts[i] == texts[j]) != (subs[i] == subs[j]) {
                         return true;
                     }
                 }
